@@ -186,12 +186,15 @@ func guard(f func()) (panicked bool) {
 	return p
 }
 
+// watchdog: a call that has not returned after this long is a hang (generous: the machine may be loaded)
+const watchdog = 8 * time.Second
+
 var hangs = map[string]int{}
 
 // skipped is set when the last guardT call was not made (site already hung twice)
 var skipped bool
 
-// guardT runs f under recover and a 2 s watchdog.  A call that does not return is
+// guardT runs f under recover and a watchdog.  A call that does not return is
 // abandoned (its goroutine keeps spinning until the process exits); after two hangs
 // at the same site further calls at that site are reported as hung without being made.
 func guardT(f func(), site string) (panicked, hung bool) {
@@ -214,7 +217,7 @@ func guardT(f func(), site string) (panicked, hung bool) {
 	select {
 	case p := <-done:
 		return p, false
-	case <-time.After(2 * time.Second):
+	case <-time.After(watchdog):
 		hangs[site]++
 		return false, true
 	}
